@@ -24,11 +24,11 @@ LEVEL_TEXT = (
     "between; the simulated network shows which socket carried which request and which settings reached the socket/TLS seams. Contexts differing by keyword-not-given vs a falsy but meaningful value (ssl.CERT_NONE, assert_hostname=False, retries=False/0, socket_options=[]) are part of the grid. The keyword x scheme x mode grid is enumerated."
 )
 LEVEL_NOTE = "trusted: the value table for known keywords (unknown keywords get generic values and must be rejected or separate); observation of settings limited to what reaches a seam (bind, socket options, timeouts, TLS wrap arguments)"
-N = {"quick": 700, "thorough": 9000}
+N = {"quick": 900, "thorough": 9000}
 BUDGET = {"quick": 45, "thorough": 300}
 RULE = "index k -> (keyword, scheme, supply mode, in-between event, URL respelling) by enumeration of the grid then seeded repetition. Non-trivial = the keyword was accepted; distinct = distinct (keyword, scheme, mode, event, respelling)."
 ASSUMPTIONS = ["a keyword that raises TypeError (at pool creation or at the first request, before any I/O) counts as rejected"]
-REQUIRED_PROBES = {"quick": ["separate_pools", "unset_vs_falsy", "via_proxy_manager", "rejected_keyword", "same_context_shared", "respelled_url_shared", "defaults_unchanged", "evicted_then_A", "seam:source_address", "seam:timeout", "seam:tls"], "thorough": ["separate_pools", "unset_vs_falsy", "via_proxy_manager", "rejected_keyword", "same_context_shared", "respelled_url_shared", "defaults_unchanged", "evicted_then_A", "seam:source_address", "seam:timeout", "seam:tls"]}
+REQUIRED_PROBES = {"quick": ["separate_pools", "unset_vs_falsy", "via_proxy_manager", "redirect_to_other_host_followed", "defaults_around_override_ok", "rejected_keyword", "same_context_shared", "respelled_url_shared", "defaults_unchanged", "evicted_then_A", "seam:source_address", "seam:timeout", "seam:tls"], "thorough": ["separate_pools", "unset_vs_falsy", "via_proxy_manager", "redirect_to_other_host_followed", "defaults_around_override_ok", "rejected_keyword", "same_context_shared", "respelled_url_shared", "defaults_unchanged", "evicted_then_A", "seam:source_address", "seam:timeout", "seam:tls"]}
 
 
 def keywords():
@@ -113,7 +113,9 @@ def falsy_values(kw: str):
 
 FALSY_KWS = ["cert_reqs", "assert_hostname", "retries", "socket_options"]
 MODES = ["pool_kwargs", "ctor_default_A"]
-EVENTS = ["none", "evict", "idle_close", "respell"]
+# "redirect": a request answered by a redirect whose Location names another host without a scheme (//other.test/...): the follow-up
+# belongs to another origin and must not travel on this origin's pool
+EVENTS = ["none", "evict", "idle_close", "respell", "redirect"]
 
 
 def cases(seed, k, tier):
@@ -156,6 +158,7 @@ def run(sc: dict) -> Result:
         return P.HttpPeer(world, chan, "origin", "origin")
 
     w.default_listener = factory
+    w.responder = lambda world, peer, req: ({"k": "resp", "status": 302, "headers": [["Location", "//other.test/ctxR"]], "body": ""} if req.target.endswith("/redir") else None)
     w.tunnel_factory = lambda w_, chan, target: T.TlsPeer(w_, chan, lambda w2, c: P.HttpPeer(w2, c, "origin", "origin", True), cert="any", name="origin")
     base = f"{scheme}://h.test"
     respelled = f"{scheme.upper()}://H.Test:{443 if scheme == 'https' else 80}"
@@ -192,8 +195,10 @@ def run(sc: dict) -> Result:
                 res.probes["via_proxy_manager"] += 1
                 pm = urllib3.ProxyManager("http://proxy.test:3128", num_pools=1 if ev == "evict" else 10, **({"timeout": 3.0} if kw != "timeout" else {}))
                 defaults_before = copy.copy(pm.connection_pool_kw)
+                do(pm, "D", UNSET, True)  # the manager's own defaults, before ...
                 do(pm, "A", A, True)
                 do(pm, "B", B_, True)
+                do(pm, "D", UNSET, True)  # ... and after the overrides
             elif mode == "pool_kwargs":
                 pm = urllib3.PoolManager(num_pools=1 if ev == "evict" else 10, timeout=3.0 if kw != "timeout" else None, **common) if kw != "timeout" else urllib3.PoolManager(num_pools=1 if ev == "evict" else 10, **common)
                 defaults_before = copy.copy(pm.connection_pool_kw)
@@ -212,6 +217,12 @@ def run(sc: dict) -> Result:
                 do(pm, "X", A, mode != "ctor_default_A", url_base=f"{scheme}://other.test")
             elif ev == "idle_close":
                 w.advance(100.0)
+            elif ev == "redirect" and scheme == "http" and mode != "proxy_pool_kwargs":
+                try:
+                    pm.request("GET", base + "/redir", retries=2)
+                    res.probes["redirect_to_other_host_followed"] += 1
+                except Exception as e:
+                    H.strip_tb(e)
             if ev == "respell":
                 do(pm, "A", A, mode != "ctor_default_A", url_base=respelled)
             else:
@@ -231,7 +242,21 @@ def run(sc: dict) -> Result:
                 if q.target.startswith("/ctx") or "/ctx" in q.target:
                     lab = q.target[q.target.index("/ctx") + 4]
                     by_sock.setdefault(q.sid, set()).add(lab)
+            dpools = [p for l_, p, o in log if l_ == "D" and p is not None]
+            if len(dpools) == 2:
+                # (an override whose value is None says the same as leaving the keyword out)
+                others = [p for l_, p, o in log if l_ in ("A", "B") and p is not None and (A if l_ == "A" else B_) is not None]
+                if dpools[0] is not dpools[1] and ev != "evict":
+                    res.bad("same_context_different_pools", f"the manager's default context got two different pools around an override of {kw}")
+                elif any(dp is op for dp in dpools for op in others):
+                    res.bad("pool_shared_across_settings", f"a request under the manager's defaults was served by the pool created for an override of {kw}")
+                else:
+                    res.probes["defaults_around_override_ok"] += 1
             for sid, labs in by_sock.items():
+                if "D" in labs and ((("A" in labs) and A is not None) or (("B" in labs) and B_ is not None)):
+                    res.bad("connection_shared_across_settings", f"socket {sid} carried a request under the manager's defaults and one under an override of {kw}")
+                if "R" in labs and (labs & {"A", "B"}):
+                    res.bad("connection_shared_across_hosts", f"socket {sid} carried requests for h.test and the redirected request for other.test")
                 if "A" in labs and "B" in labs:
                     res.bad("connection_shared_across_settings", f"socket {sid} carried requests made under {kw}={A!r} and under {kw}={B_!r}")
             pools = {lab: [p for l_, p, o in log if l_ == lab and p is not None] for lab in ("A", "B")}
